@@ -29,7 +29,9 @@ fn enabled(f: &Family, cfg: &Cfg, m: &Model, spawns: usize) -> Vec<Step> {
     let mut v = Vec::new();
     if f.alpha.spawn && spawns < f.max_spawns {
         for i in 0..cfg.specs.len() {
-            v.push(Step::Spawn(i));
+            if m.can_spawn(&cfg.specs[i], cfg.workers) {
+                v.push(Step::Spawn(i));
+            }
         }
     }
     let nm = m.msgs.len();
@@ -118,7 +120,7 @@ pub fn sequences(f: &Family, cfg: &Cfg) -> Vec<(Vec<u32>, Vec<Step>)> {
 }
 
 fn spec(name: Option<usize>, cap: usize, holds: [bool; 4]) -> SpawnSpec {
-    SpawnSpec { name, cap, pre_fail: false, post_fail: false, holds, supervised: false }
+    SpawnSpec { name, cap, pre_fail: false, post_fail: false, holds, supervised: false, pre_stop_fail: false, post_stop_fail: false, hold_drop: false }
 }
 
 const NOHOLD: [bool; 4] = [false; 4];
@@ -187,7 +189,15 @@ fn families0(tier: vcore::Tier) -> Vec<Family> {
         let mut cfgs = Vec::new();
         for &(w, poll) in &combos {
             let mut c = base("heldstart", w, poll);
-            c.specs = vec![spec(None, 2, [false, true, true, true])];
+            // + failing stop hooks (pre_stop, post_stop, both)
+            let b = spec(None, 2, [false, true, true, true]);
+            let mut f2 = b.clone();
+            f2.pre_stop_fail = true;
+            let mut f3 = b.clone();
+            f3.post_stop_fail = true;
+            let mut f23 = f2.clone();
+            f23.post_stop_fail = true;
+            c.specs = vec![b, f2, f3, f23];
             cfgs.push(c);
         }
         if quick {
@@ -215,6 +225,13 @@ fn families0(tier: vcore::Tier) -> Vec<Family> {
             let mut qf = ok.clone();
             qf.post_fail = true;
             c.specs = vec![ok, pf, qf];
+            if w >= 2 {
+                // failed start whose actor value parks in its Drop (blocks one worker thread): the
+                // spawner has been told, the worker-side task has not finished
+                let mut pfd = c.specs[1].clone();
+                pfd.hold_drop = true;
+                c.specs.push(pfd);
+            }
             cfgs.push(c);
         }
         if quick {
@@ -271,7 +288,14 @@ fn families0(tier: vcore::Tier) -> Vec<Family> {
             ok.supervised = true;
             let mut qf = ok.clone();
             qf.post_fail = true;
-            c.specs = vec![ok, qf];
+            // + a failing pre_stop on an otherwise healthy child (exit Stopped -> Failed, or an
+            // earlier handler failure kept), and both stop hooks failing after a failed post_start
+            let mut sf = ok.clone();
+            sf.pre_stop_fail = true;
+            let mut qsf = qf.clone();
+            qsf.pre_stop_fail = true;
+            qsf.post_stop_fail = true;
+            c.specs = vec![ok, qf, sf, qsf];
             cfgs.push(c);
         }
         if quick {
